@@ -13,7 +13,7 @@ import tlegen
 ID = "C01"
 LEAN_TARGETS = ["PV.Props.C01"]
 # further files of property theorems (all are obligations): convergence / root-closeness stretch theorems
-EXTRA_PROPS = ['PV.Props.C01Kepler']
+EXTRA_PROPS = ['PV.Props.C01Kepler', 'PV.Props.Pipeline']
 # T-C tie (DESIGN 2.3): kernels traced from the current source are proved equal to the model over the reals
 EQUIV = {'PV.Equiv.Look': ['kep2xyz_eq']}
 import symtrace_sgp4  # noqa: E402  (static lists of the SGP4 stage-equivalence theorems)
